@@ -1373,7 +1373,7 @@ func harnessC05killAfter() {
 	var o wOpts
 	o.allowed = vChoice(2) // default (net/rpc only) or both
 	o.cmd = vChoice(2) == 1
-	o.oldLine = 1 + vChoice(5) // 1..4 scripted lines; 5: garbage
+	o.oldLine = 1 + vChoice(6) // 1..4 scripted lines; 5: garbage; 6: a plugin that never writes a line (start timeout)
 	o.mux = o.oldLine == 1     // a six-field gRPC line with multiplexing requested: refused
 	o.extraLines = 2 * vChoice(2)
 	if o.extraLines > 0 {
@@ -1392,6 +1392,10 @@ func harnessC05killAfter() {
 	if vChoice(2) == 1 {
 		w.c.config.UnixSocketConfig = &UnixSocketConfig{} // given, with nothing set
 		vCover("unix-socket-config")
+	}
+	if o.oldLine == 6 {
+		w.p.main = func() { <-wNever }
+		vCover("silent-until-start-timeout")
 	}
 	dirsBefore := len(wFiles)
 	_, err := w.c.Start()
